@@ -22,6 +22,9 @@ type RunOpts struct {
 	CompLimit       uint64 // gauge limits (0 = none); the limit applies per step
 	MemLimit        uint64
 	StackDepthLimit uint64
+	// NoAtreeValidation turns runtime.Config.AtreeValidationEnabled off (the
+	// production configuration; the harness default is on).
+	NoAtreeValidation bool
 	// Faults are installed on the host for the step FaultStep only (-1: never).
 	Faults    []*host.Fault
 	FaultStep int
@@ -93,7 +96,7 @@ func Run(it Item, o RunOpts) ([]StepRun, *host.Host) {
 	h := NewHost(it)
 	out := make([]StepRun, 0, len(it.Hist.Steps))
 	for i, s := range it.Hist.Steps {
-		ho := host.Options{Engine: o.Engine, StackDepthLimit: o.StackDepthLimit}
+		ho := host.Options{Engine: o.Engine, StackDepthLimit: o.StackDepthLimit, NoAtreeValidation: o.NoAtreeValidation}
 		var g *host.Gauge
 		if o.Gauges || o.CompLimit != 0 || o.MemLimit != 0 {
 			g = host.NewGauge(o.Gauges)
@@ -194,7 +197,7 @@ func RunTrace(it Item, o RunOpts) Trace {
 	h := NewHost(it)
 	var tr Trace
 	for _, s := range it.Hist.Steps {
-		r := RunStep(h, s, host.Options{Engine: o.Engine, StackDepthLimit: o.StackDepthLimit})
+		r := RunStep(h, s, host.Options{Engine: o.Engine, StackDepthLimit: o.StackDepthLimit, NoAtreeValidation: o.NoAtreeValidation})
 		tr.Steps = append(tr.Steps, TraceOf(r, h))
 	}
 	return tr
@@ -265,6 +268,8 @@ type GaugeTrace struct {
 	CompTotal uint64 `json:"comp_total"`
 	MemHash   string `json:"mem_hash"`  // hash of the ordered [(kind, amount)]
 	CompHash  string `json:"comp_hash"` // hash of the ordered [(kind, intensity)]
+	MemBag    string `json:"mem_bag"`   // order-insensitive hash of the multiset of (kind, amount)
+	CompBag   string `json:"comp_bag"`
 	// full sequences, only when requested: kind, amount pairs flattened
 	Mem  []uint64 `json:"mem,omitempty"`
 	Comp []uint64 `json:"comp,omitempty"`
@@ -290,15 +295,43 @@ func GaugeTraceOf(g *host.Gauge, full bool) GaugeTrace {
 			gt.Comp = append(gt.Comp, uint64(c.Kind), c.Intensity)
 		}
 	}
+	gt.MemBag, gt.CompBag = bagHash(g), ""
+	{
+		var acc [4]uint64
+		for _, c := range g.Comp {
+			mixBag(&acc, uint64(c.Kind), c.Intensity)
+		}
+		gt.CompBag = fmt.Sprintf("%x", acc)
+	}
 	gt.MemHash = hex.EncodeToString(hm.Sum(nil)[:12])
 	gt.CompHash = hex.EncodeToString(hc.Sum(nil)[:12])
 	return gt
 }
 
+// mixBag adds one (kind, amount) pair to an order-insensitive accumulator.
+func mixBag(acc *[4]uint64, kind, amount uint64) {
+	x := kind*0x9e3779b97f4a7c15 ^ (amount+0x7f4a7c15)*0xbf58476d1ce4e5b9
+	x ^= x >> 31
+	x *= 0x94d049bb133111eb
+	x ^= x >> 29
+	acc[0] += x
+	acc[1] += x * x
+	acc[2] ^= x
+	acc[3]++
+}
+
+func bagHash(g *host.Gauge) string {
+	var acc [4]uint64
+	for _, m := range g.Mem {
+		mixBag(&acc, uint64(m.Kind), m.Amount)
+	}
+	return fmt.Sprintf("%x", acc)
+}
+
 // RunGauges executes the item with recording gauges and returns one GaugeTrace
-// per step.
-func RunGauges(it Item, eng host.Engine, full bool) []GaugeTrace {
-	runs, _ := Run(it, RunOpts{Engine: eng, Gauges: true, FaultStep: -1})
+// per step. validation selects runtime.Config.AtreeValidationEnabled.
+func RunGauges(it Item, eng host.Engine, full bool, validation bool) []GaugeTrace {
+	runs, _ := Run(it, RunOpts{Engine: eng, Gauges: true, FaultStep: -1, NoAtreeValidation: !validation})
 	out := make([]GaugeTrace, len(runs))
 	for i, r := range runs {
 		out[i] = GaugeTraceOf(r.Gauge, full)
@@ -318,6 +351,24 @@ func firstDiff(a, b []uint64) string {
 	}
 	if len(a) != len(b) {
 		return fmt.Sprintf("call %d: one sequence ends (%d vs %d calls)", n/2, len(a)/2, len(b)/2)
+	}
+	return ""
+}
+
+// DiffGaugeBags compares only the multisets of metering calls (and their counts
+// and totals), not their order.
+func DiffGaugeBags(a, b []GaugeTrace) string {
+	if len(a) != len(b) {
+		return fmt.Sprintf("step count %d vs %d", len(a), len(b))
+	}
+	for i := range a {
+		x, y := a[i], b[i]
+		if x.MemBag != y.MemBag || x.MemCalls != y.MemCalls || x.MemTotal != y.MemTotal {
+			return fmt.Sprintf("step %d: memory metering multiset differs (%d calls total %d vs %d calls total %d)", i, x.MemCalls, x.MemTotal, y.MemCalls, y.MemTotal)
+		}
+		if x.CompBag != y.CompBag || x.CompCalls != y.CompCalls || x.CompTotal != y.CompTotal {
+			return fmt.Sprintf("step %d: computation metering multiset differs (%d calls total %d vs %d calls total %d)", i, x.CompCalls, x.CompTotal, y.CompCalls, y.CompTotal)
+		}
 	}
 	return ""
 }
